@@ -7,14 +7,16 @@ def run(res, tier, replay=None):
     res.functions = sum(1 for _ in prog.all_funcs())
     f3.c10a_alloc_sites(prog, res)
     f3.c10b_length_writers(prog, res)
+    f3.c10c_heap_sizes(prog, res)
     res.assumptions = common.ASSUMPTIONS
     res.explanation = ("C10 structural clauses: (a) every allocation site's size expression equals the extent the "
                        "sweeper recomputes from the type row and the stored length field (linear forms over "
                        "constant-evaluated sizes; fixed rows compared after 32-byte chunk alignment); (b) size-determining "
-                       "length fields are written only on an object allocated earlier in the same function. Not decided: "
+                       "length fields are written only on an object allocated earlier in the same function; (c) every sexp_make_heap call passes a size that is provably a multiple of the allocation granule (abstract evaluation of the size expression: align masks, aligned sums, integer multiples, ceil). Not decided: "
                        "coalescing arithmetic of sexp_sweep, free-list order, growth policy, boundedness of heap size.")
     if tier == "thorough":
         common.thorough_mutations(res, "C10", {
             "C10.a": lambda p, r: f3.c10a_alloc_sites(p, r),
             "C10.b": lambda p, r: f3.c10b_length_writers(p, r),
+            "C10.c": lambda p, r: f3.c10c_heap_sizes(p, r),
         })
